@@ -481,7 +481,7 @@ def enumerate_targets(db) -> List[Dict[str, Any]]:
         last_dc[0] = owner
         name = fld.name
         if name.endswith("_ref") and type(v).__name__ == "OdxLinkRef" and name not in SKIP_FIELDS and \
-                retarget_allowed(type(owner).__name__, name):
+                (retarget_allowed(type(owner).__name__, name) or retarget_allowed(type(owner).__name__, name + "@refresh")):
             # a reference that the client may point at another object of the database
             out.append({"path": path, "cls": type(owner).__name__, "field": name, "type": "OdxLinkRef",
                         "kind": "retarget", "ctx": context_key(owner),
@@ -916,8 +916,10 @@ def gen(rs: int, index: int, tier: str) -> Dict[str, Any]:
             rd = S.rng("donor")
             donors = [t for t in STATE["targets"][base] if t["kind"] == "retarget" and
                       (t["cls"], t["field"]) == (tgt["cls"], tgt["field"]) and t["ref"] != tgt["ref"]]
-            # same document (layer / subset) so that the reference means the same thing at its new place
-            donors = [t for t in donors if t["path"][:4] == tgt["path"][:4]]
+            # same document (container / subset) so that the reference means the same thing at its new place
+            # (the same layer; for PARENT-REFs, which are per layer, the same container)
+            depth = 2 if tgt["cls"] == "ParentRef" else 4
+            donors = [t for t in donors if t["path"][:depth] == tgt["path"][:depth]]
             pool = [t for t in donors if t.get("ctx") == tgt.get("ctx")] or donors
             pert["alts"] = []
             if pool:
@@ -926,7 +928,11 @@ def gen(rs: int, index: int, tier: str) -> Dict[str, Any]:
                 pert = None
     # the client edits the loaded database and writes it without calling refresh() first (the shipped
     # example mksomersaultmodifiedpdx.py: "For just writing to disk this is not necessary")
-    norefresh = pert is not None and (pert["kind"] == "retarget" or S.rng("norefresh").random() < 0.3)
+    norefresh = pert is not None and S.rng("norefresh").random() < 0.3
+    if pert is not None and pert["kind"] == "retarget":
+        # written without refresh() or (for the pairs validated that way) after refresh()
+        modes = [m for m in (True, False) if retarget_allowed(pert["cls"], pert["field"] + ("" if m else "@refresh"))]
+        norefresh = S.rng("retarget-mode").choice(modes) if modes else True
     jump = r.choice(JUMPS)
     e1, e2 = r.choice(ENTRIES), r.choice(ENTRIES)
     # history inside the run: in some runs another database is written first by the same process
@@ -943,7 +949,9 @@ def gen(rs: int, index: int, tier: str) -> Dict[str, Any]:
     prewrite = S.rng("prewrite").random() < 0.25
     # refresh() is called again on an already consistent database (before the first write / after the reload)
     rerefresh = [S.rng("rerefresh").random() < 0.15, S.rng("rerefresh2").random() < 0.15]
-    return {"base": base, "prelude": prelude, "pert": pert, "env": env, "norefresh": norefresh, "prewrite": prewrite, "rerefresh": rerefresh,
+    # the loaded database is USED (encoding / decoding through every layer) before it is saved
+    use_first = (not norefresh) and S.rng("usefirst").random() < 0.25
+    return {"base": base, "prelude": prelude, "pert": pert, "env": env, "norefresh": norefresh, "prewrite": prewrite, "rerefresh": rerefresh, "use_first": use_first,
             "entries": [e1, e2], "orders": [r.randint(0, 10**6), r.randint(0, 10**6)],
             "index_pos": [r.choice(["first", "last", "middle", "keep"]), r.choice(["first", "last", "middle", "keep"])],
             "clock": [1_700_000_000.0 + r.randint(0, 10**7), jump[0], jump[1]]}
@@ -1211,6 +1219,9 @@ def execute(trace: Dict[str, Any]) -> Dict[str, Any]:
                         outcome = "base-failed"
                         violations.append({"oracle": "C11.write", "sig": {"cls": "-", "field": "-", "vclass": "base", **exc_sig(e)},
                                            "detail": {"base": trace["base"], "msg": str(e)[:300], "stage": "second load of the base"}})
+                if outcome == "ok" and trace.get("use_first") and dbw is db0:
+                    behaviour(db0)
+                    faults["database_used_before_it_is_written"] = 1
                 if outcome == "ok" and (trace.get("rerefresh") or [False])[0] and dbw is db0:
                     try:
                         db0.refresh()
@@ -1239,6 +1250,28 @@ def execute(trace: Dict[str, Any]) -> Dict[str, Any]:
                         outcome = "not-well-formed"
                         violations.append({"oracle": "C11.O1-wellformed", "sig": {"cls": cls, "field": field, "vclass": vclass},
                                            "detail": {"member": bad[0], "error": bad[1], "pert": pert}})
+                if outcome == "ok" and trace.get("use_first") and dbw is db0:
+                    # read-only use must not change what is written: the same database, never used, writes the same documents
+                    try:
+                        dbx = load_base(trace["base"])
+                        if pert:
+                            apply_perturbation(dbx, pert)
+                            dbx.refresh()
+                        px = os.path.join(wd, "px.pdx")
+                        odxtools.write_pdx_file(px, dbx)
+                        mx, m1_ = odx_members(px), odx_members(p1)
+                    except Exception as e:  # noqa: BLE001 - judged by the other runs of this configuration
+                        mx = m1_ = None
+                        log.ev("sim", "unused-twin-failed", exc_sig(e))
+                    if mx is not None and mx != m1_:
+                        n = next((n for n in sorted(set(mx) | set(m1_)) if mx.get(n) != m1_.get(n)), "?")
+                        a, b_ = m1_.get(n, b""), mx.get(n, b"")
+                        pos = next((i for i in range(min(len(a), len(b_))) if a[i] != b_[i]), min(len(a), len(b_)))
+                        violations.append({"oracle": "C11.O8-use-does-not-change-what-is-written", "sig": {"suffix": n.rsplit(".", 1)[-1]},
+                                           "detail": {"member": n, "offset": pos,
+                                                      "written_after_use": a[max(0, pos - 60):pos + 60].decode("utf-8", "replace"),
+                                                      "written_unused": b_[max(0, pos - 60):pos + 60].decode("utf-8", "replace"),
+                                                      "pert": pert}})
                 if outcome == "ok" and base_archive(trace["base"]) is not None:
                     # the auxiliary files of the written archive are those of the archive the database came from
                     want, got = archive_aux(base_archive(trace["base"])), archive_aux(p1)
